@@ -29,6 +29,14 @@ def obligations(ctx):
                     if q and (rsz + asz) % 2 and nn == 8:
                         continue
                     obs.append(ag.api_ob(t, api, nn, 1, 1, rsz, asz, asl=nn + 2 if api == 1 else nn))
+    # the smallest ring dimension of each backend: FFT64 N=2 (m=1), one shape per entry point
+    for avx in (0, 1):
+        for api in (1, 2, 3, 5):
+            obs.append(ag.api_ob(t, api, 2, 0, avx, 2, 1 + avx, asl=3 if api in (1, 5) else 2, tag="n2/"))
+        for api in (4, 6):
+            obs.append(ag.api_ob(t, api, 2, 0, avx, tag="n2/"))
+        for api in (7, 8, 9):
+            obs.append(ag.api_ob(t, api, 2, 0, avx, 2, 2, nrows=2, ncols=3, tag="n2/"))
     obs.append(ag.api_ob(t, 10, 4, 0, 0, rsz=3))
     obs.append(ag.api_ob(t, 10, 4, 1, 1, rsz=3))
     # VMP: both prepared layouts (N<8 and N>=8), rows/cols up to 3 (cols up to 5 for the odd-last-column paths), sizes 0..3(5)
